@@ -189,6 +189,13 @@ class OfflineWorld(object):
             if eol and not out.endswith(file_eol):
                 self.fail("eol", "line %r came back as %r: not terminated by the file's line ending %r"
                           % (line, out, file_eol))
+            if eol:
+                rest = out.replace(file_eol, "")
+                if "\r" in rest or "\n" in rest:
+                    self.fail("eol_inner", "line %r came back as %r: an emitted line is not terminated by the file's "
+                              "line ending %r" % (line, out, file_eol))
+                if out.count(file_eol) > 1:
+                    self.stats["probe:multi_line_output"] += 1
         if unchanged:
             if out != line:
                 self.fail("unchanged", "the live path leaves %r alone (kind=%s) but the stream processor returned %r"
